@@ -127,15 +127,21 @@ def run_cell(args):
     old_tz = os.environ.get("TZ")
     os.environ["TZ"] = zone
     time.tzset()
-    w = W.World([("f",)], [], name_class="plain", salt="t%d" % k)
+    w = W.World([("f",), ("g",)], [], name_class="plain", salt="t%d" % k)
     try:
         p = w.cpath(("f",))
         with open(p, "wb") as fh:
             fh.write(b"x" * size)
-        os.utime(p, (t_file, t_file))
+        # a second file of another size and another time next to it (values must not leak between records)
+        other_size = {0: 7, 1: 0}.get(size, 3)
+        p2 = w.cpath(("g",))
+        with open(p2, "wb") as fh:
+            fh.write(b"y" * other_size)
+        os.utime(p2, (t_file - 5 * 86400, t_file - 40 * 86400))
+        os.utime(p, (t_file - 3 * 86400, t_file))          # access time differs from modification time
         os.utime(w.root, (t_file, t_file))
         with Shim():
-            _FAKE["now"] = t_now
+            _FAKE["now"] = t_now + 0.25                     # not at a full second: hash dates carry microseconds
             res = CliRunner(mix_stderr=False).invoke(C.create, [w.root, "-h", "md5"], catch_exceptions=True)
         folder = os.path.join(w.root, "ascmhl")
         names = [n for n in os.listdir(folder) if n.endswith(".mhl")] if os.path.isdir(folder) else []
@@ -145,8 +151,15 @@ def run_cell(args):
         if names:
             with open(os.path.join(folder, names[0]), "rb") as fh:
                 m = PJ.parse_manifest(fh.read())
-            rec = m["files"][0]
+            recs = {os.path.basename(r["path"]): r for r in m["files"]}
+            rec = recs.get(os.path.basename(p), m["files"][0])
+            rec2 = recs.get(os.path.basename(p2))
             line["size_written"] = int(rec["size"]) if rec["size"] is not None and rec["size"].isdigit() else -1
+            if rec2 is None or rec2["size"] is None or int(rec2["size"]) != other_size:
+                line["size_written"] = -2                  # the neighbour's record is wrong
+            pr2 = parse_iso(rec2["lastmod"]) if rec2 else None
+            if pr2 is None or int(pr2[0]) != t_file - 40 * 86400:
+                line["size_written"] = -3
             stamp = PJ.GEN_NAME.match(names[0]).group(3)
             line["fname_ok"] = stamp == datetime.datetime.fromtimestamp(t_now, datetime.timezone.utc).strftime("%Y-%m-%d_%H%M%SZ")
             for what, s, inst in (("lastmod", rec["lastmod"], t_file), ("hashdate", rec["ents"][0]["hashdate"], t_now), ("creationdate", m["creator"].get("creationdate"), t_now)):
